@@ -70,7 +70,8 @@ Datas == << [a |-> <<"int", 1>>, b |-> <<"int", 2>>],
 ParseTexts == << <<39,92,117,52,70,49,49,92,117,52,70,51,52,39,43,39,92,120,52,49,39>>,      \* '\u4F11\u4F34'+'\x41'
                  <<39,92,117,48,48,52,49,92,120,54,50,92,117,52,101,50,100,39>>,            \* '\u0041\x62\u4e2d'
                  <<49,32,43,10,32,40,50,32,42>>,                                            \* 1 +\n (2 *
-                 <<49,101,49,95,48,32,43,32,50,46,53,101,45,51>> >>                                  \* 1e1_0 + 2.5e-3  (the same byte buffer is handed to every goroutine)
+                 <<49,101,49,95,48,32,43,32,50,46,53,101,45,51>>,
+                 <<97,32,63,32,98>>, <<102,40,112,32,63,32,113,41>> >>          \* a ? b   f(p ? q)  : the "':' expected" diagnostic                                  \* 1e1_0 + 2.5e-3  (the same byte buffer is handed to every goroutine)
 \* a workload is <<"eval", text index, data index>> | <<"fields", text index>>
 SharedTree(i) == ParseTokens(SharedTexts[i])[2]
 \* <<"evaldeep", i, j, d>>: formula i wrapped in d pairs of parentheses (a parenthesised expression has the value
